@@ -86,6 +86,11 @@ class Operand:
                 self.value = j["v"]
             elif "vs" in j:
                 self.value = int(j["vs"])
+            elif "pv" in j:
+                # promoted reference to a scalar literal (`&0u8`)
+                self.value = j["pv"]
+                self.sym = None
+                self.symdef = None
 
     @property
     def is_const(self):
